@@ -6,13 +6,13 @@ claimed = {
          "Within the instance grids (scaled block size 2..4, 1-3 files up to 2B+1 bytes, 9x9 shape relations) all byte values are covered by the solver at once; NONE compression only.",
          "memfs/md5/protobuf models; deterministic goroutine schedule; compression codecs outside the claim"),
  "C02": ("bounded symbolic execution of the overlay bowl (stage + Commit) under the real patcher on an in-memory file system; every iteration order of the maps visited during Commit explored as decisions; SMT-decided; native replay",
-         "For the 19 path-level relations x listed sizes, all contents (generic position) and all commit map orders: old build untouched before Commit, result == new build == fresh apply. Kind swaps are known findings.",
+         "For the 19 path-level relations x listed sizes, all contents (generic position) and all commit map orders: old build untouched before Commit, result == new build == fresh apply. Includes 4 kind-swap relations.",
          "memfs/md5/protobuf models; scaled constants; deterministic goroutine schedule"),
  "C03": ("bounded symbolic execution of save/resume: patcher checkpoints serialized (gob model), interruption at every checkpoint index k and lag, in-progress output truncated to every length >= the checkpointed offset, brand-new patcher/pool/bowl resumed; SMT-decided",
          "For the two build pairs, fresh and overlay bowls, rsync and bsdiff series, every (k, lag, truncation) in the grid: resume succeeds and reproduces the uninterrupted result.",
          "memfs/gob/md5/protobuf models; compression NONE only; one interruption per run"),
  "C06": ("bounded symbolic execution of Validate with the archive healer (zip container model) over 12 damage shapes incl. kind swaps hiding subtrees, under delay/preemption-bounded schedules of validator/consumer/heal-worker goroutines with several default policies; native replay",
-         "For every damage shape, contents and explored schedule in the bound: healing returns nil, the build is complete afterwards and fail-fast validation passes; a valid directory is untouched. One shape is a known finding.",
+         "For every damage shape, contents and explored schedule in the bound: healing returns nil, the build is complete afterwards and fail-fast validation passes; a valid directory is untouched.",
          "memfs (atomic calls = scheduling points)/zip container/md5/protobuf models; cooperative scheduler sound for DRF code"),
  "C15": ("bounded symbolic execution comparing, inside one path, the canonical run with a run under every explored schedule (delay bound 1-2, 3 policies), read slicing or map iteration order: patch/signature bytes, bsdiff control series, optimizer output; SMT decides byte equality for all contents; plus an SMT predictive data-race query (happens-before order variables over the recorded event trace of WritePatch and bsdiff goroutines) confirmed natively under the Go race detector",
          "Within the bounds the outputs are identical under every explored schedule/slicing/map order, and no pair of conflicting accesses of the analysed paths (<= 12 per race instance) can be re-ordered to coincide.",
